@@ -78,14 +78,20 @@ def judge(s, ev, res):
         return [common.violation("C10.structure", "snapshot-raises:" + common.exc_failure(e), {}, {}, repr(e))], False
     res.oracles["structure"] += 1
     if ev[0] == "setc" or ev[0] == "set":
-        # assigning plain data to a compound that holds references creates new targets: compare modulo reference targets
-        strip = lambda sn: {k: (v if v[0] not in ("ref", "uref") else v[:-1]) for k, v in sn.items()}
         under = tuple(ev[2])
-        changed_refs = ev[0] == "setc"
-        a, b = (strip(snap0), strip(snap1)) if changed_refs else (snap0, snap1)
-        if changed_refs:
-            # targets newly created below the assigned path live elsewhere: drop records beyond a reference under the path
-            cut = lambda sn: {k: v for k, v in sn.items() if not (k[: len(under)] == under and any(p in ("*", "#") for p in k[len(under):]))}
+        a, b = snap0, snap1
+        if ev[0] == "setc":
+            # the assigned value decides every reference at or below the assigned path (plain data creates new targets, None
+            # unbinds): those records, and everything beyond such a reference, are judged by the value re-read above
+            def cut(sn):
+                out = {}
+                for k, v in sn.items():
+                    if k[: len(under)] == under:
+                        if v[0] in ("ref", "uref", "null") or any(p in ("*", "#") for p in k[len(under):]):
+                            continue
+                    out[k] = v
+                return out
+
             a, b = cut(a), cut(b)
         if a != b:
             ks = [k for k in a if a.get(k) != b.get(k)] + [k for k in b if k not in a]
